@@ -4,8 +4,9 @@ CONSTANTS
   L = 3
   Alphabet = {"A", "C", "G", "T", "N"}
   Mode = "geometry"
-  GeomRefs = {"allC", "allG", "CG"}
+  GeomRefs = {"allC", "allG"}
   MaxFrags = 1
+  DistMode = "mixed"
   Variant = "design"
 INVARIANT Inv_C14_OnTarget
 INVARIANT Inv_C14_DoveSafe
